@@ -44,11 +44,19 @@ pub enum Cut {
     Short { declared: usize, have: usize },
     /// declared length is smaller than the 4-byte minimum header
     ShortLen(usize),
+    /// declared total (storage header + LEN) is larger than the `message_max_len` the reader was
+    /// configured with (only with an explicit limit; the default constructor fits every record)
+    Oversize(usize),
 }
 
 /// The Cutter: own reading of the format — 16-byte storage header if the mode says so, big-endian
 /// u16 at offset 2 of the standard header.
 pub fn cut_at(stream: &[u8], pos: usize, storage: bool) -> Cut {
+    cut_at_lim(stream, pos, storage, 0)
+}
+
+/// `limit`: the reader's configured `message_max_len`; 0 = no limit
+pub fn cut_at_lim(stream: &[u8], pos: usize, storage: bool, limit: usize) -> Cut {
     let sl = if storage { 16 } else { 0 };
     let rest = &stream[pos.min(stream.len())..];
     if rest.len() < sl + 4 {
@@ -59,6 +67,9 @@ pub fn cut_at(stream: &[u8], pos: usize, storage: bool) -> Cut {
         return Cut::ShortLen(len);
     }
     let total = sl + len;
+    if limit != 0 && total > limit {
+        return Cut::Oversize(total);
+    }
     if rest.len() < total {
         return Cut::Short { declared: total, have: rest.len() };
     }
@@ -67,10 +78,14 @@ pub fn cut_at(stream: &[u8], pos: usize, storage: bool) -> Cut {
 
 /// Walk the whole stream; returns piece ranges and the terminal cut.
 pub fn cut_all(stream: &[u8], storage: bool) -> (Vec<(usize, usize)>, Cut) {
+    cut_all_lim(stream, storage, 0)
+}
+
+pub fn cut_all_lim(stream: &[u8], storage: bool, limit: usize) -> (Vec<(usize, usize)>, Cut) {
     let mut pos = 0;
     let mut pieces = vec![];
     loop {
-        match cut_at(stream, pos, storage) {
+        match cut_at_lim(stream, pos, storage, limit) {
             Cut::Piece(n) => {
                 pieces.push((pos, pos + n));
                 pos += n;
